@@ -2,7 +2,7 @@
 from __future__ import annotations
 
 from harness import C07 as _c07
-from harness.rt_entry import ob, sim  # noqa: F401
+from harness.rt_entry import obs_sharded, ob, sim  # noqa: F401
 
 PROPERTY = 'C14'
 LEVEL = 'model_checking'
@@ -21,8 +21,9 @@ ASSUMPTIONS = _c07.ASSUMPTIONS + [
     'raise ConnectionResetError); partial writes and half-open sockets are outside',
 ]
 BOUNDS = {
-    'quick': 'flat2 (detached and attached) and mgr2x1, tree map2; one crash of any worker/manager at ANY step of the '
-             'run (crash step symbolic over the whole horizon), baseline schedule + <=1 delay',
+    'quick': 'flat2 (detached and attached), flat3, mgr2x1, mgr1x2; trees map2, nested, next3; one crash of any worker/'
+             'manager at ANY step of the run (crash step symbolic over the whole horizon) on the baseline schedule, and '
+             'with <=1 delay on flat2/map2',
     'thorough': 'adds trees nested/next3, flat3, mgr1x2, a second crash, 2 delays',
 }
 OUTSIDE = 'partial writes, half-open TCP, OS-level kill timing, the 1 s sleeps, more than two crashes'
@@ -37,6 +38,15 @@ def obligations(tier: str) -> list[dict]:
         obs.append(ob('mgr2x1/map2/crash1/K0', 'mgr2x1', ['map2'], 'crash', 0, 200, crashes=1,
                       crash_nodes=['m0', 'm1', 'w0', 'w536870912']))
         obs.append(ob('flat2/nested/crash1/K0', 'flat2', ['nested'], 'crash', 0, 200, crashes=1, crash_nodes=['w0', 'w1']))
+        obs.append(ob('flat2/next3/crash1/K0', 'flat2', ['next3'], 'crash', 0, 200, crashes=1, crash_nodes=['w0', 'w1']))
+        obs.append(ob('flat2-attached/nested/crash1/K0', 'flat2', ['nested'], 'crash', 0, 200, crashes=1,
+                      crash_nodes=['w0', 'w1'], kind='attached'))
+        obs.append(ob('flat3/map2/crash1/K0', 'flat3', ['map2'], 'crash', 0, 200, crashes=1, crash_nodes=['w0', 'w1', 'w2']))
+        obs.append(ob('mgr2x1/nested/crash1/K0', 'mgr2x1', ['nested'], 'crash', 0, 200, crashes=1,
+                      crash_nodes=['m0', 'm1', 'w0', 'w536870912']))
+        obs.append(ob('mgr1x2/map2/crash1/K0', 'mgr1x2', ['map2'], 'crash', 0, 200, crashes=1, crash_nodes=['m0', 'w0', 'w1']))
+        obs.extend(obs_sharded(6, 'flat2/map2/crash1/K1', 'flat2', ['map2'], 'crash', 1, 300, crashes=1,
+                               crash_nodes=['w0', 'w1'], maxrank=1))
     else:
         for topo, nodes in (('flat2', ['w0', 'w1']), ('flat3', ['w0', 'w1', 'w2']),
                             ('mgr2x1', ['m0', 'm1', 'w0', 'w536870912']), ('mgr1x2', ['m0', 'w0', 'w1'])):
